@@ -56,6 +56,7 @@ type opRec struct {
 	n                     int
 	err                   error
 	dataOK                bool
+	viaSelect             bool // the call went through operation's select (it was not turned away by the c.err check)
 	replied               bool // the peer sent the correct reply frame for this request
 	inflightAtPoison      bool
 }
@@ -165,6 +166,7 @@ func (st *c15State) caller(ci int) {
 			err error
 			ok  = true
 		)
+		sel0 := vs.SelectsDone()
 		vs.Atomic(func() {
 			r := &st.recs[i]
 			r.issued, r.issueT, r.issueStep = true, vs.NowNS(), st.step
@@ -187,6 +189,7 @@ func (st *c15State) caller(ci int) {
 		vs.Atomic(func() {
 			r := &st.recs[i]
 			r.returned, r.retT, r.retStep, r.n, r.err, r.dataOK = true, vs.NowNS(), st.step, n, err, ok
+			r.viaSelect = vs.SelectsDone() != sel0
 		})
 		vs.Note("caller %d: op %d (%c) returned n=%d err=%v", ci, i, o.kind, n, err)
 	}
@@ -195,7 +198,6 @@ func (st *c15State) caller(ci int) {
 // peer is the scripted replica side: it answers request Order[k] as the k-th reply, waiting for it to arrive, and at
 // reply index FaultAt misbehaves instead.
 func (st *c15State) peer(conn *VConn) {
-	defer st.wg.Done()
 	w := rpc.NewWire(conn)
 	got := map[int]uint32{} // request id -> seq
 	lastSeq := uint32(0)
@@ -296,7 +298,7 @@ func RunC15(cfg C15Cfg, earlyTimer func() bool) (*c15State, func() *Outcome) {
 		a, b := NewVConnPair()
 		st.closeChan = make(chan struct{}, 5) // as backend/remote.Factory.Create makes it
 		st.client = rpc.NewClient(a, st.closeChan)
-		st.wg.Add(len(cfg.Callers) + 1)
+		st.wg.Add(len(cfg.Callers))
 		for ci := range cfg.Callers {
 			ci := ci
 			vs.Go(fmt.Sprintf("caller%d", ci), func() { st.caller(ci) })
@@ -305,8 +307,11 @@ func RunC15(cfg C15Cfg, earlyTimer func() bool) (*c15State, func() *Outcome) {
 		if vs.Active() {
 			vs.Quiesce(0)
 		} else {
+			// free-running (race pass): wait for the callers, let the client settle, then drop the peer's end
 			st.wg.Wait()
-			vs.Quiesce(120 * time.Millisecond)
+			vs.Quiesce(30 * time.Millisecond)
+			b.Close()
+			vs.Quiesce(30 * time.Millisecond)
 		}
 		return st.judge(earlyTimer())
 	}
@@ -348,11 +353,18 @@ func (st *c15State) judge(earlyTimer bool) *Outcome {
 			obs = append(obs, fmt.Sprintf("%d%c:HANG", i, o.kind))
 			continue
 		}
+		ownDeadline := r.issueT + rpc.VerifTimeout(o.typ)
 		cl := errClass(r.err)
+		if cl == "own-deadline" && !r.viaSelect {
+			// the same error value, but handed out as the client's sticky error before this request's deadline
+			cl = "err(" + r.err.Error() + ")"
+		}
 		late := ""
 		if r.err != nil {
 			anyTransportErr = true
-			if st.poisoned && r.retT > maxI(st.poisonT, r.issueT)+grace {
+			// "late": the request ended through its own deadline although the client had been poisoned more than the
+			// implementation's grace period before that deadline (schedule-independent: compares armed deadlines)
+			if cl == "own-deadline" && st.poisoned && st.poisonStep < r.retStep && ownDeadline > st.poisonT+grace {
 				late = "+late"
 			}
 		}
@@ -381,15 +393,24 @@ func (st *c15State) judge(earlyTimer bool) *Outcome {
 			if cfg.Fault == "" && !earlyTimer {
 				viol("spurious-failure", k, "request %d (%c) failed with %q although the peer answered every request and no deadline was made to expire early", i, o.kind, cl)
 			}
-			if r.poisonedAtIssue && r.retT != r.issueT {
-				viol("late-after-handled", k, "request %d (%c) was issued after the transport error had been handled but needed a timer to return", i, o.kind)
+			if r.poisonedAtIssue && cl == "own-deadline" {
+				viol("late-after-handled", k, "request %d (%c) was issued after the transport error had been handled but returned only through its own deadline", i, o.kind)
 			}
-			if r.inflightAtPoison && late != "" {
-				viol("inflight-not-failed", k, "request %d (%c) was in flight (registered in Client.messages) when the client was poisoned at %v but was only failed at %v (%s), i.e. not by the poisoning but by its own deadline", i, o.kind, time.Duration(st.poisonT), time.Duration(r.retT), cl)
-			} else if late != "" {
-				out.Gray = append(out.Gray, GrayObs{"late-fail:" + faultTag + ":" + k, fmt.Sprintf("request %d (%c), not yet registered in Client.messages when the client was poisoned at %v, failed only at %v by %s", i, o.kind, time.Duration(st.poisonT), time.Duration(r.retT), cl)})
+			switch {
+			case late == "":
+			case r.inflightAtPoison && !earlyTimer:
+				// no timer was fired early in this execution: time only advanced when no thread could run, so the
+				// completion had not been delivered when the request's own deadline fired
+				viol("inflight-not-failed", k, "request %d (%c) was in flight (registered in Client.messages) when the client was poisoned at %v, but it was not failed by the poisoning: it returned only when its own deadline fired at %v", i, o.kind, time.Duration(st.poisonT), time.Duration(ownDeadline))
+			case r.inflightAtPoison:
+				out.Gray = append(out.Gray, GrayObs{"inflight-own-deadline-under-early-timer:" + faultTag + ":" + k, fmt.Sprintf("request %d (%c) in flight at poisoning returned through its own deadline in an execution where the explorer fired timers early (thread starvation); judged by the registered-requests check instead", i, o.kind)})
+			default:
+				out.Gray = append(out.Gray, GrayObs{"late-fail:" + faultTag + ":" + k, fmt.Sprintf("request %d (%c), issued at %v and not yet registered in Client.messages when the client was poisoned at %v, was never failed by the client: it returned only when its own deadline fired at %v", i, o.kind, time.Duration(r.issueT), time.Duration(st.poisonT), time.Duration(ownDeadline))})
 			}
 		}
+	}
+	if poisonedNow && rpc.VerifRegistered(st.client) != 0 {
+		viol("inflight-left-registered", "-", "the client is poisoned but %d request(s) are still registered in Client.messages at quiescence: in-flight requests were not terminated: %v", rpc.VerifRegistered(st.client), rpc.VerifInflight(st.client))
 	}
 	if poisonedNow != (tokens == 1) || tokens > 1 {
 		viol("closechan-token", "-", "client poisoned=%v but closeChan holds %d token(s): the failure is not reported exactly once", poisonedNow, tokens)
